@@ -7,7 +7,9 @@ import (
 	"math/rand"
 	"os"
 	"path/filepath"
+	"sort"
 	"strconv"
+	"sync"
 	"time"
 
 	wt "github.com/hnakamur/whispertool"
@@ -34,7 +36,7 @@ func (c08) Meta() fw.Meta {
 			"CLI commands read the wall clock; the oracle uses the now: value the command printed (per file), so the comparison is exact at that instant",
 			"value equality is numeric (+0 == -0), as the command's own difference test; NaN equals NaN",
 		},
-		Obligations: []string{"copies_ok", "slots_compared", "slots_copied", "coarser_matched_finer_differed", "dest_absent_created", "dest_absent_nothing_to_copy", "narrow_window", "window_beyond_finest_retention", "single_archive_selection", "glob_mode_3plus_files", "copy_nan_mode", "layout_mismatch_rejected", "repeat_idempotent", "diff_after_copy_clean", "source_unchanged_checks", "symlinked_source_in_glob", "unclean_base_spelling", "glob_failing_file_reported"},
+		Obligations: []string{"slow_first_file_runs", "copies_ok", "slots_compared", "slots_copied", "coarser_matched_finer_differed", "dest_absent_created", "dest_absent_nothing_to_copy", "narrow_window", "window_beyond_finest_retention", "single_archive_selection", "glob_mode_3plus_files", "copy_nan_mode", "layout_mismatch_rejected", "repeat_idempotent", "diff_after_copy_clean", "source_unchanged_checks", "symlinked_source_in_glob", "unclean_base_spelling", "glob_failing_file_reported"},
 		Workers:     12,
 	}
 }
@@ -69,7 +71,9 @@ func perturb(r *rand.Rand, c slotContent, archs []int, n int) {
 		}
 		for i := 0; i < n; i++ {
 			k := keys[r.Intn(len(keys))]
-			switch r.Intn(3) {
+			switch r.Intn(4) {
+			case 3: // the closest other value: "almost equal" is not equal
+				c[ai][k] = math.Nextafter(c[ai][k], math.Inf(1-2*r.Intn(2)))
 			case 0:
 				c[ai][k] = c[ai][k] + 1
 			case 1:
@@ -304,7 +308,40 @@ func (c08) Run(c *fw.Ctx) {
 	}
 	copied, survived := int64(0), int64(0)
 	for _, pat := range patterns {
+		var slowWG sync.WaitGroup
+		if sc.Glob && pat == "*.wsp" && sc.Until == 0 && sc.Archive <= 0 && c.Index%2 == 0 {
+			// the first file is slow (its source is locked by another handle for a moment) and meanwhile a fresh
+			// point arrives in the LAST file's source: every file's default window ends at its own clock
+			var top []string
+			for _, rel := range sc.Files {
+				if filepath.Dir(rel) == "." {
+					top = append(top, rel)
+				}
+			}
+			sort.Strings(top)
+			if len(top) >= 2 {
+				if hold, err := wt.Open(filepath.Join(srcBase, top[0])); err == nil {
+					last := top[len(top)-1]
+					slowWG.Add(1)
+					go func() {
+						defer slowWG.Done()
+						time.Sleep(time.Duration(1200+r.Intn(600)) * time.Millisecond)
+						lp := filepath.Join(srcBase, last)
+						if db, err := wt.Open(lp); err == nil {
+							tn := time.Now().Unix()
+							db.UpdatePointsForArchive([]wt.Point{{Time: u32(tn), Value: 54321.5}}, 0, u32(tn))
+							db.Sync()
+							db.Close()
+							srcBefore[last] = readFileOrNil(lp)
+						}
+						hold.Close()
+					}()
+					c.Count("slow_first_file_runs", 1)
+				}
+			}
+		}
 		res := runCLI(c, buildArgs(pat)...)
+		slowWG.Wait()
 		det := fw.J{"scenario": sc, "run": res.brief(), "fixture_clock": now}
 		if cliPanicked(res) {
 			c.Violationf("panic", det, "copy panicked")
